@@ -162,7 +162,7 @@ func buildOracle(v Val, s Spec) *oracle {
 			}
 			o.self[x.gallina()] = safeAssignable(topT, x.px().PType())
 			if x.K == "hash" {
-				// Hash under %a renders as the array of its entries (hashtype.go:1243)
+				// Hash under %a renders as the array of its entries (hashtype.go:1271)
 				es := make([]string, len(x.Es))
 				for i := range x.Es {
 					es[i] = "(VArr [(" + x.Ks[i].gallina() + "); (" + x.Es[i].gallina() + ")])"
@@ -223,7 +223,7 @@ func buildOracle(v Val, s Spec) *oracle {
 			o.f2i[math.Float64bits(f)] = int64(f)
 			addFloat(f)
 		case "bin":
-			// with '#' the text chosen by the format character is quoted (binarytype.go:288)
+			// with '#' the text chosen by the format character is quoted (binarytype.go:295)
 			raw := []byte(x.bytes())
 			addQ(x.bytes())
 			std := base64.StdEncoding.EncodeToString(raw)
